@@ -55,7 +55,8 @@ def dt_parts(x):
 
 
 def tagname(n):
-    return "t%d" % n
+    # tag 0 is the empty string: a legal tag that is falsy in Python
+    return "t%d" % n if n else ""
 
 
 def exc_name(e):
